@@ -123,10 +123,7 @@ func (e *env) query(mint, maxt int64) string {
 }
 
 func runCase(c *h.Ctx, ops []string) {
-	dir, err := os.MkdirTemp("", "vdb")
-	if err != nil {
-		panic(err)
-	}
+	dir := h.TempDir("vdb")
 	e := &env{dir: dir}
 	defer os.RemoveAll(dir)
 	defer e.close()
